@@ -398,6 +398,27 @@ def _summary(sim):
             'final': {k: v for k, v in sim.final().items() if k in ('state', 'closed', 'sock_none', 'artim')}}
 
 
+def run_shutdown_fault(ctx, name, role, steps, only=None):
+    """The peer has reset the connection by the time the local side closes it: a shutdown() the implementation may call
+    before close() fails with ENOTCONN.  That is no event of the protocol: the conversation is indicated and ends
+    exactly as without it.  (Also with the transport socket in time-out mode and partial send()s.)"""
+    script = full_script(steps) + [{'k': 'tick', 'dt': ARTIM + 1}]
+    want = _summary(simnet.run_scenario(role, script))
+    for mode, kw in (('shutdown-enotconn', dict(shutdown_fault=True)),
+                     ('timeout-mode', dict(sock_timeout=30.0, sndbuf=5)),
+                     ('both', dict(shutdown_fault=True, sock_timeout=30.0, sndbuf=64))):
+        if only is not None and only != mode:
+            continue
+        case = {'kind': 'shutdown-fault', 'conv': name, 'mode': mode}
+        ctx.case(('shutdown-fault', name, mode), True, labels=['socket-environment', 'mode=' + mode, 'conv=' + name], sample=case)
+        got = _summary(simnet.run_scenario(role, script, **kw))
+        if got != want:
+            diff = [k for k in want if want[k] != got[k]]
+            ctx.fail('C13:socket-environment:%s' % diff[0], '%s with %s: %s differ from the plain run (e.g. indications %d vs %d, '
+                     'outcome %s vs %s, final %r vs %r)' % (name, mode, diff, len(got['inds']), len(want['inds']), got['outcome'],
+                                                            want['outcome'], got['final'], want['final']), case)
+
+
 def run_slow_reader(ctx, name, role, steps, only=None):
     """The peer pauses reading for 11.5 s during the k-th local write (TCP flow control makes the write wait), for
     every k where ARTIM is not running.  A slow reader is no fault at all: the conversation must go exactly as
@@ -462,6 +483,7 @@ def run_conv(ctx, job):
     run_disconnects(ctx, job['conv'], role, steps)
     run_write_faults(ctx, job['conv'], role, steps)
     run_slow_reader(ctx, job['conv'], role, steps)
+    run_shutdown_fault(ctx, job['conv'], role, steps)
     run_kill_stop(ctx, job['conv'], role, steps)
 
 
@@ -545,7 +567,7 @@ def replay(case):
     from ..common import Ctx
     sub = Ctx('C13', 'quick', 1)
     k = case['kind']
-    if k in ('disconnect', 'kill', 'stop', 'write-fault', 'slow-reader'):
+    if k in ('disconnect', 'kill', 'stop', 'write-fault', 'slow-reader', 'shutdown-fault'):
         role, steps = corpus(True)[case['conv']]
         if k == 'disconnect':
             run_disconnects(sub, case['conv'], role, steps, (case['cut'], case['user_after']))
@@ -553,6 +575,8 @@ def replay(case):
             run_write_faults(sub, case['conv'], role, steps, case['write'])
         elif k == 'slow-reader':
             run_slow_reader(sub, case['conv'], role, steps, case['write'])
+        elif k == 'shutdown-fault':
+            run_shutdown_fault(sub, case['conv'], role, steps, case['mode'])
         else:
             run_kill_stop(sub, case['conv'], role, steps, case['at'])
     elif k == 'silence':
